@@ -318,6 +318,14 @@ def rule_d(ck, R):
             cnt = L(e.args[1]).scale(ws)
             buf = L(e.args[2])
             goal = (buf - L(FRAME)) + cnt - alloc
+            # the entailment works in mathematical integers; it is only meaningful if no arithmetic of the capacity test
+            # is carried out in a type narrower than size_t that can wrap
+            guards = [c for c in p.cond_terms() if 'blocksize' in fmt(c)]
+            wraps = eng.narrow_wraps(guards, [f_ for f_ in facts if isinstance(f_, Lin)])
+            if wraps:
+                t_, qt_, why_ = wraps[0]
+                bad = bad or ('the capacity test of %s computes %s in %s arithmetic, which %s (wraps around): a huge block size passes the test and %s is asked to fill a block the buffer cannot hold'
+                              % (e.name, fmt(t_), qt_, why_, e.name))
             if not eng.entails(facts, goal):
                 bad = ('%s is asked to fill %s %d-octet words at %s, but the capacity test {%s} ignores the header octets in front of the payload area: '
                        'cannot entail (payload.data - block) + size <= block size' % (
